@@ -122,6 +122,7 @@ func regMake(scn regScn) func() (func(), any) {
 			for i, c := range scn.Calls {
 				c := c
 				cr := r.w.newCall(fmt.Sprintf("caller%d", i), c.Key, 0x8104)
+				cr.TimeoutMs = 50
 				vs.GoNamed(cr.Name, false, func() {
 					if c.AfterJoin >= 0 {
 						vs.Block(&vs.Op{Kind: "hwait-join", W: evWaiter{r, c.AfterJoin, "join-ok"}})
@@ -309,7 +310,7 @@ func regCheck(res *vs.Result, user any) []vs.Violation {
 		if c.Done && c.Reply != nil {
 			if errors.Is(c.Reply.ExtensionFields.Err, service.ErrNotExistKey) {
 				target = -1
-				if c.TimeoutMs > 0 && c.ClockDone-c.ClockStart >= int64(c.TimeoutMs)*1e6 {
+				if c.TimeoutMs > 0 && res.TimerEarly == 0 && c.ClockDone-c.ClockStart >= int64(c.TimeoutMs)*1e6 { // see cmdCheck
 					add("not-exist-not-at-once", fmt.Sprintf("%s: ErrNotExistKey came only after %d ms of virtual time (timeout %d ms): the refusal waited out the timer", c.Name, (c.ClockDone-c.ClockStart)/1e6, c.TimeoutMs))
 				}
 			} else if pf, err := ref.Decode(c.Snap.PlatData); err == nil {
